@@ -1,6 +1,6 @@
 (* C16 - prelude functions and macros compute what their documentation says.
    Only statements; proofs in Eval/PreludeProofs.v. *)
-From PL Require Import Eval.EvalRules Eval.PreludeState Eval.PreludeProofs Eval.CatchProofs Eval.LengthProofs Eval.RangeProofs Eval.FoldProofs Eval.MapProofs Eval.ZipProofs.
+From PL Require Import Eval.EvalRules Eval.PreludeState Eval.PreludeProofs Eval.CatchProofs Eval.LengthProofs Eval.RangeProofs Eval.FoldProofs Eval.MapProofs Eval.ZipProofs Eval.LastProofs Eval.InitProofs Eval.FoldrProofs.
 From Coq Require Import ZArith.
 From Coq Require Import String.
 Local Open Scope string_scope.
@@ -108,3 +108,27 @@ Theorem C16_zip : forall tl1 tl2 xs ys st d, is_nil tl1 = true -> is_nil tl2 = t
                      strip r = strip (vec_to_list (map pair_of (combine xs ys))).
 Proof. exact zip_runs. Qed.
 Print Assumptions C16_zip.
+
+(* last: the last element of every non-empty list *)
+Theorem C16_last : forall xs x tl, is_nil tl = true -> last_statement xs x tl.
+Proof. exact last_spec. Qed.
+Print Assumptions C16_last.
+
+(* init: all elements but the last, for every non-empty list *)
+Theorem C16_init : forall xs x tl, is_nil tl = true -> init_statement xs x tl.
+Proof. exact init_spec. Qed.
+Print Assumptions C16_init.
+
+(* foldr: f x1 (f x2 (... (f xn init))) for every list and every function whose applications evaluate *)
+Theorem C16_foldr : forall fv iv tv g K, (2 <= K)%nat ->
+  (forall acc x d, (d + 3 <= MAXD)%N -> forall st0 g0, has_prelude st0 ->
+     exists st1, eval_loop (K + g0) st0 (fr_app fv iv tv) (fr_app_env fv iv tv acc x) pm (d + 1)%N = (st1, ROk (g x acc)) /\ has_prelude st1) ->
+  forall tl xs st d, tv = onto xs tl -> is_nil tl = true -> has_prelude st -> (d + 5 <= MAXD)%N ->
+  exists fuel st', eval_loop fuel st fr_body (fr_env fv iv tv) pm d = (st', ROk (fold_right g iv xs)) /\ has_prelude st'.
+Proof. exact foldr_runs. Qed.
+Print Assumptions C16_foldr.
+
+Theorem C16_foldr_instance : forall xs st d, has_prelude st -> (d + 5 <= MAXD)%N ->
+  exists fuel st', eval_loop fuel st fr_body (fr_env cons_native_v VNil (vec_to_list xs)) pm d = (st', ROk (fold_right VCons VNil xs)) /\ has_prelude st'.
+Proof. exact foldr_cons_instance. Qed.
+Print Assumptions C16_foldr_instance.
